@@ -52,6 +52,7 @@ type Spec struct {
 	Outside   []string          `json:"outside_claim"`
 	TimeoutMs int               `json:"query_timeout_ms"`
 	Level     string            `json:"level"`
+	Guarded   []GuardSpec       `json:"guarded"`    // lock-discipline monitor, see guards.go
 	MaskTests []string          `json:"mask_tests"` // additional dirs whose _test.go files get masked in replay
 }
 
@@ -308,6 +309,10 @@ func (rc *runCtx) runSpec(specPath string, evPath string) int {
 		}
 		eng.overrides[cf] = rf
 	}
+	if err := eng.resolveGuards(spec.Guarded); err != nil {
+		rc.fail(nil, 2, err.Error())
+		return 2
+	}
 	hpkg := eng.prog.ImportedPackage(spec.Package)
 	if hpkg == nil {
 		rc.fail(nil, 2, "harness package not found: "+spec.Package)
@@ -410,7 +415,10 @@ func (rc *runCtx) runSpec(specPath string, evPath string) int {
 			writeReplay(rp, &spec, specDir, v)
 			rc.replayFiles = append(rc.replayFiles, rp)
 			confirmed, out := true, ""
-			if !rc.noReplay && !hs.NoReplay {
+			// lock-discipline events come from the engine's monitor and have no native counterpart (the native
+			// run has no monitor; a data race is not deterministic): reported from the engine's trace alone
+			monitorOnly := v.Kind == "event" && strings.Contains(v.Msg, "unguarded access")
+			if !rc.noReplay && !hs.NoReplay && !monitorOnly {
 				rc.nativeRuns++
 				confirmed, out = nativeReplay(&spec, specDir, rp, v)
 			}
